@@ -285,10 +285,11 @@ def vocab(ctx, mi, T):
   ctx.ob('VOCAB/removal', fi, no[0] if no else fn, len(no) == 1, 'removed degrees are written (no<n>)' if no else 'removed degrees are not written with the reader\'s "no" prefix')
   # the kind emitted is the first abbreviation of a row
   lk = ctx.func('chord_symbols_lib:_largest_chord_kind_from_degrees')
-  asg = [s for s in U.walk_stmts(lk.node) if isinstance(s, ast.Assign) and isinstance(s.value, ast.Tuple) and isinstance(s.value.elts[0], ast.Subscript)]
+  # (tuple assignments are split into single stores by the loader: the abbreviation is the store whose value is <abbrevs>[0])
+  asg = [s for s in U.walk_stmts(lk.node) if isinstance(s, ast.Assign) and isinstance(s.value, ast.Subscript) and not isinstance(s.value.slice, ast.Slice) and U.const_value(s.value.slice) is not None]
   loop = next((n for n in lk.node.body if isinstance(n, ast.For) and isinstance(n.target, ast.Tuple)), None)
-  ok = len(asg) == 1 and U.const_value(asg[0].value.elts[0].slice) == 0 and loop is not None and \
-      norm_text(asg[0].value.elts[0].value) == norm_text(loop.target.elts[0]) and norm_text(loop.iter) == '_CHORD_KINDS'
+  ok = len(asg) == 1 and U.const_value(asg[0].value.slice) == 0 and loop is not None and \
+      norm_text(asg[0].value.value) == norm_text(loop.target.elts[0]) and norm_text(loop.iter) == '_CHORD_KINDS'
   ctx.ob('VOCAB/kind', lk, asg[0] if asg else lk.node, ok, 'the emitted kind is the first abbreviation of a kind row (a key of the parser dictionary)' if ok else
          'the emitted kind is not taken from the abbreviations of the matched kind row')
   ok = all(row[0] and row[0][0] in T['_CHORD_KINDS_BY_ABBREV'] for row in T['_CHORD_KINDS'])
